@@ -14,9 +14,9 @@ class Cfg:
     def __init__(self, tier="quick", only=None):
         self.tier = tier
         self.equiv_cap = 12.0 if tier == "quick" else 60.0
-        self.d_timeout = 8.0 if tier == "quick" else 15.0
-        self.d_timeout_refined = 3.0 if tier == "quick" else 10.0
-        self.d_paths = 1 if tier == "quick" else 4  # paths per program whose dumped files go through the solver binaries
+        self.d_timeout = 8.0 if tier == "quick" else 12.0
+        self.d_timeout_refined = 3.0 if tier == "quick" else 8.0
+        self.d_paths = 1 if tier == "quick" else 3  # paths per program whose dumped files go through the solver binaries
         self.only = only  # set of class-prefix letters, e.g. {"A","C"}
         self.run_d = True
 
